@@ -14,7 +14,7 @@ macro_rules! ops_for {
 		// "u"/"%75", "h"/"%68", "[::1]"/"[::01]"... : different spellings, some equal under ==
 		let mut us: Vec<Option<&str>> = vec![None, Some(""), Some("u"), Some("%75"), Some("u:p"), Some("user:password"), Some("%7e%c3%a9")];
 		// "caf%c3%a9": escapes spelled with lower-case hex digits (the text must be kept as given)
-		let mut hs: Vec<&str> = vec!["", "h", "%68", "H", "[::1]", "example.org", "1.2.3.4", "caf%c3%a9", "%7euser"];
+		let mut hs: Vec<&str> = vec!["", "h", "%68", "H", "[::1]", "example.org", "1.2.3.4", "caf%c3%a9", "%7euser", "[v1.x:y]"];
 		// the grammar puts no bound on the number of digits of a port
 		let mut ps: Vec<Option<&str>> = vec![None, Some(""), Some("8"), Some("8080"), Some("065535"), Some("18446744073709551616")];
 		if $level >= 1 {
